@@ -66,7 +66,45 @@ INPLACE_METHODS = {"sort", "fill", "resize", "put", "itemset", "partition", "cli
 ARRAY_PARAMS = {"wavelength", "energy", "Q", "q", "stol", "weights", "velocity", "angle"}
 
 
-def caller_array_hazards(fnode, array_params=ARRAY_PARAMS):
+def returned_alias_param(fnode):
+    """index of the parameter that every return statement of fnode hands back (as it is, or through asarray / reshape /
+    ...), or None: such a helper returns the caller's own array"""
+    params = [a.arg for a in fnode.args.args]
+    found = set()
+    rets = [n for n in ast.walk(fnode) if isinstance(n, ast.Return)]
+    if not rets:
+        return None
+    for r in rets:
+        v = r.value
+        name = None
+        if isinstance(v, ast.Name):
+            name = v.id
+        elif isinstance(v, ast.Call):
+            fn = v.func
+            nm = fn.attr if isinstance(fn, ast.Attribute) else fn.id if isinstance(fn, ast.Name) else None
+            if nm in NOCOPY:
+                if v.args and isinstance(v.args[0], ast.Name):
+                    name = v.args[0].id
+                elif isinstance(fn, ast.Attribute) and isinstance(fn.value, ast.Name):
+                    name = fn.value.id
+        if name not in params:
+            return None
+        found.add(name)
+    return params.index(found.pop()) if len(found) == 1 else None
+
+
+def mutated_params(fnode, module_funcs=None, _depth=0):
+    """names of the parameters of fnode that the function updates in place or retains (whatever they are called)"""
+    out = set()
+    for a in fnode.args.args + fnode.args.kwonlyargs:
+        if a.arg in ("self", "cls"):
+            continue
+        if caller_array_hazards(fnode, array_params={a.arg}, module_funcs=module_funcs, _depth=_depth + 1):
+            out.add(a.arg)
+    return out
+
+
+def caller_array_hazards(fnode, array_params=ARRAY_PARAMS, module_funcs=None, _depth=0):
     """In-place updates of, and retained references to, values that alias a parameter.
 
     alias = a parameter, or a name bound (only) to numpy.asarray(alias) / alias.reshape(...) / a plain copy of the
@@ -100,6 +138,10 @@ def caller_array_hazards(fnode, array_params=ARRAY_PARAMS):
                             src = v.args[0].id
                         elif isinstance(fn, ast.Attribute) and isinstance(fn.value, ast.Name):
                             src = fn.value.id
+                    elif module_funcs and isinstance(fn, ast.Name) and fn.id in module_funcs:
+                        k_ = returned_alias_param(module_funcs[fn.id])
+                        if k_ is not None and k_ < len(v.args) and isinstance(v.args[k_], ast.Name):
+                            src = v.args[k_].id
                 ok.append(src in alias and src is not None)
             if values and all(ok) and name not in alias:
                 alias.add(name)
@@ -121,6 +163,10 @@ def caller_array_hazards(fnode, array_params=ARRAY_PARAMS):
                     return v.args[0].id in alias
                 if isinstance(fn, ast.Attribute) and isinstance(fn.value, ast.Name):
                     return fn.value.id in alias
+            if module_funcs and isinstance(fn, ast.Name) and fn.id in module_funcs:
+                k_ = returned_alias_param(module_funcs[fn.id])
+                if k_ is not None and k_ < len(v.args) and isinstance(v.args[k_], ast.Name):
+                    return v.args[k_].id in alias
         return False
     fresh_from = {}
     for i_, st in enumerate(body):
@@ -160,4 +206,35 @@ def caller_array_hazards(fnode, array_params=ARRAY_PARAMS):
             elif isinstance(node, ast.Call) and isinstance(node.func, ast.Attribute) and node.func.attr in INPLACE_METHODS \
                     and isinstance(node.func.value, ast.Name) and node.func.value.id in alias and node.func.value.id not in rebound_fresh:
                 hazards.append(("in-place method on a caller-supplied array", node))
+            if isinstance(node, ast.Call):
+                # numpy's out= writes the result into the array given
+                for kw in node.keywords:
+                    if kw.arg == "out":
+                        vals = kw.value.elts if isinstance(kw.value, (ast.Tuple, ast.List)) else [kw.value]
+                        for v in vals:
+                            if isinstance(v, ast.Name) and v.id in alias and v.id not in rebound_fresh:
+                                hazards.append(("a caller-supplied array is used as out= of an array operation", node))
+                # handed on to a helper of the same module that updates or retains that argument
+                callee = None
+                if module_funcs and _depth < 3:
+                    if isinstance(node.func, ast.Name):
+                        callee = module_funcs.get(node.func.id)
+                    elif isinstance(node.func, ast.Attribute) and isinstance(node.func.value, ast.Name) and node.func.value.id in ("self", "cls"):
+                        callee = module_funcs.get(node.func.attr)
+                if callee is not None and callee is not fnode:
+                    cparams = [a.arg for a in callee.args.args]
+                    if cparams and cparams[0] in ("self", "cls") and isinstance(node.func, ast.Attribute):
+                        cparams = cparams[1:]
+                    passed = {}
+                    for i_, a_ in enumerate(node.args):
+                        if isinstance(a_, ast.Name) and i_ < len(cparams):
+                            passed[cparams[i_]] = a_.id
+                    for kw in node.keywords:
+                        if kw.arg and isinstance(kw.value, ast.Name):
+                            passed[kw.arg] = kw.value.id
+                    hot = {p_: n_ for p_, n_ in passed.items() if n_ in alias and n_ not in rebound_fresh}
+                    if hot:
+                        bad = mutated_params(callee, module_funcs, _depth) & set(hot)
+                        if bad:
+                            hazards.append((f"a caller-supplied array is handed to {getattr(callee, 'name', '?')}(), which updates or keeps its argument {sorted(bad)[0]!r}", node))
     return hazards
